@@ -124,6 +124,15 @@ def shiftLn (put : List Line) (ln endLn l : Nat) : Nat := l - endLn + ln + (put.
 def shiftCol (put : List Line) (col endLn endCol l c : Nat) : Nat :=
   if l = endLn then c - endCol + (lastLine put).length + (if put.length = 1 then col else 0) else c
 
+/-! ### placement of a freshly parsed fragment (`fst_put_one._make_exprlike_fst`: the fragment is parsed at the origin and
+its nodes are offset by `(ln, lines[ln].c2b(col))` before its lines are spliced in with `_put_src`) -/
+
+/-- line of a fragment point (line `l` of the put lines) in the new document -/
+def placeLn (ln l : Nat) : Nat := ln + l
+
+/-- character column of a fragment point `(l, c)` in the new document: only the first fragment line is shifted -/
+def placeCol (col l c : Nat) : Nat := if l = 0 then col + c else c
+
 /-! ### characters and bytes (`bistr.c2b`, `len(s.encode())`) -/
 
 /-- `len(s.encode())` (UTF-8). -/
@@ -131,6 +140,10 @@ def utf8Len (l : Line) : Nat := (l.map Char.utf8Size).sum
 
 /-- `bistr.c2b`: byte offset of character column `c` in line `l`. -/
 def c2b (l : Line) (c : Nat) : Nat := utf8Len (l.take c)
+
+/-- byte column of a fragment node with byte column `b` on fragment line `l` after placement: the offset added on the first line
+is the BYTE length of the text before the put position, `lines[ln].c2b(col)` -/
+def placeColBytes (L : List Line) (ln col l b : Nat) : Nat := if l = 0 then c2b (lineAt L ln) col + b else b
 
 /-- `bistr.b2c` for a byte offset that is a character boundary (number of characters whose encoding fits). -/
 def b2c : Line → Nat → Nat
